@@ -824,6 +824,10 @@ class DOMTokenList(list):
 
                 Can take a string argument, and will strip whitespace and retain each distinct word as an element
         '''
+        if len(args) == 1 and args[0] is None:
+            # A value-less attribute ( e.x. <iframe sandbox> ) has no tokens
+            return list.__init__(self)
+
         if len(args) == 1 and isstr(args[0]):
             strippedValue = stripWordsOnly(args[0])
             if not strippedValue:
